@@ -232,6 +232,8 @@ step_add_option(const struct script *s, coap_pdu_t *pdu, rm_msg_t *m, uint32_t n
   uint8_t *val = heapdup(vbuf, len);
   size_t ret = coap_add_option(pdu, (coap_option_num_t)num, len, val);
   free(val);
+  vx_trace("  coap_add_option(%u, len=%u) -> %zu   [used_size=%zu alloc_size=%zu max_size=%zu]", num, len, ret, pdu->used_size,
+           pdu->alloc_size, pdu->max_size);
 
   int hop_needed = is_request(m->code) && (num == 35 || num == 39) && rm_find(m, 16) < 0;
   int rep_present = rm_find(m, num) >= 0 && rm_opt_repeatable(num) == 0;
@@ -385,6 +387,8 @@ run_script(const struct script *s) {
     uint8_t *t = heapdup(g_tok, s->tok_len);
     int r = coap_add_token(pdu, s->tok_len, t);
     free(t);
+    vx_trace("  coap_pdu_init(%u, %u, 0x%04x, %ld); coap_add_token(len=%u) -> %d   [used_size=%zu alloc_size=%zu]", s->type,
+             s->code, s->mid, s->max_size, s->tok_len, r, pdu->used_size, pdu->alloc_size);
     if (r) {
       if (!fits(s->max_size, rm_tok_wire_len(s->tok_len))) {
         failf(s, "accept-unexpected:add_token:exceeds-max_size", "coap_add_token(%u) accepted with max_size %ld", s->tok_len,
@@ -441,6 +445,7 @@ run_script(const struct script *s) {
     uint8_t *p = heapdup(g_pay, s->pay_len);
     int r = coap_add_data(pdu, s->pay_len, p);
     free(p);
+    vx_trace("  coap_add_data(len=%u) -> %d   [used_size=%zu alloc_size=%zu]", s->pay_len, r, pdu->used_size, pdu->alloc_size);
     size_t need = rm_body_len(&m) + (s->pay_len ? 1 + s->pay_len : 0);
     if (r) {
       if (!fits(s->max_size, need)) {
@@ -498,6 +503,13 @@ run_script(const struct script *s) {
       goto done;
     }
     vxp_count(C_ENCODED, 1);
+    if (vx_in_replay()) {
+      char hx[2 * 64 + 1];
+      vx_hex(hx, sizeof hx, wire, wl > 64 ? 64 : wl);
+      vx_trace("  coap_pdu_encode_header(%s) -> %zu; wire (%zu bytes) %s%s", PROTO_NAME[s->proto_i], hs, wl, hx, wl > 64 ? ".." : "");
+      vx_hex(hx, sizeof hx, ref, rl > 64 ? 64 : rl);
+      vx_trace("  reference encoding of the model (%zu bytes) %s%s", rl, hx, rl > 64 ? ".." : "");
+    }
     if (f == RM_TCP) {
       size_t rest = rm_rest_len(&m);
       vxp_count(rest <= 12 ? C_LEN0 : rest <= 268 ? C_LEN8 : rest <= 65804 ? C_LEN16 : C_LEN32, 1);
